@@ -93,9 +93,12 @@ type prefixResult struct {
 	setErr    error
 }
 
-func deliverPrefix(te *model.TypeEntry, evs []simkit.Ev, k int, byRef bool, measure func() uint64, x *simkit.Ctx) *prefixResult {
+func deliverPrefix(te *model.TypeEntry, preset interface{}, evs []simkit.Ev, k int, byRef bool, measure func() uint64, x *simkit.Ctx) *prefixResult {
 	r := &prefixResult{intact: true}
 	ptr, intact, _ := te.NewTarget()
+	if preset != nil {
+		te.Set(ptr, model.DeepCopy(preset))
+	}
 	r.panic = simkit.Guard(func() {
 		u, err := gotype.NewUnfolder(nil)
 		if err != nil {
@@ -127,6 +130,18 @@ func (Engine) Run(c *simkit.Choices, x *simkit.Ctx) *simkit.Violation {
 	evs, src := genStream(c, x, te)
 	if len(evs) == 0 {
 		return nil
+	}
+	if c.N(3) == 0 {
+		// shape mismatches at any depth: subtrees replaced, members rotated
+		evs = model.MutateStream(c, evs, 1+c.N(3))
+		src += "+mutated"
+	}
+	// a re-used target: pre-populated with a value of its type (non-nil
+	// slices, maps and pointers) in a third of the runs
+	var preset interface{}
+	if te.Supported && c.N(3) == 0 {
+		preset = te.Gen(c)
+		src += "+preset-target"
 	}
 	sc := &Scenario{Target: te.Name, StreamOf: src, Events: len(evs), ByRef: c.Bool()}
 	// abandonment point: every k for small streams (one per run, enumerated
@@ -205,7 +220,7 @@ func (Engine) Run(c *simkit.Choices, x *simkit.Ctx) *simkit.Violation {
 		st.Fault("abandon-at-k")
 		st.Distinct(simkit.NewDigest().Str(te.Name).Str(sc.Stream).Int(k).Str(fmt.Sprint(sc.Announced)).Str(pte.Name).Sum())
 
-		r := deliverPrefix(te, stream, k, sc.ByRef, cheapAlloc, x)
+		r := deliverPrefix(te, preset, stream, k, sc.ByRef, cheapAlloc, x)
 		site := te.Name
 		if r.panic != nil {
 			return &simkit.Violation{Kind: "panic", Site: r.panic.Site + "/" + simkit.NormalisePanic(r.panic.Value),
@@ -227,7 +242,7 @@ func (Engine) Run(c *simkit.Choices, x *simkit.Ctx) *simkit.Violation {
 				Detail: "SetTarget accepted a target type the library cannot handle safely", Scenario: sc}
 		}
 		if lim := uint64(1<<20 + 4096*r.delivered); r.alloc > lim {
-			r2 := deliverPrefix(te, stream, k, sc.ByRef, exactAlloc, &simkit.Ctx{Stats: st})
+			r2 := deliverPrefix(te, preset, stream, k, sc.ByRef, exactAlloc, &simkit.Ctx{Stats: st})
 			if r2.alloc > lim {
 				return &simkit.Violation{Kind: "alloc", Site: site,
 					Detail: fmt.Sprintf("%d bytes allocated for %d delivered events (bound %d)", r2.alloc, r.delivered, lim), Scenario: sc}
